@@ -461,7 +461,7 @@ impl Session {
                     let dr = match payload.data_rate() {
                         DR::_15 => Some(configuration.data_rate),
                         n => {
-                            if region.get_datarate(n as u8).is_some() {
+                            if region.uplink_datarate_valid(n) {
                                 Some(n)
                             } else {
                                 None
